@@ -166,6 +166,20 @@ def probeLine : P String := do
     let v := v.diffIf (outcome != "crash" && s.ub) s!"{comp} model predicts an out-of-bounds read ({kind}) that the sanitized run did not show"
     pure v.render
 
+/-- `fprobe <component> <kind> <outcome> <F> <what>` : FasterTrie given an empty key in a forked child; `crash` = the child died -/
+def fprobeLine : P String := do
+  let comp ← P.tok; let kind ← P.tok; let outcome ← P.tok
+  let F ← P.nats; let what ← P.tok; P.eof
+  let g := AITB.Gen.C20.ftEmptyKeyGuard
+  let t := FT.new F
+  let mdl : String :=
+    if what == "erase" then (match t.eraseG g 0 [] with | none => "ub" | some _ => "ok")
+    else (match t.insertG g [] with | none => "ub" | some none => "invalid_argument" | some (some _) => "ok")
+  let v : Verdict := { tag := "probe" }
+  let v := v.failIf (outcome == "crash") s!"{comp} {kind} shape={F} call={what} with an empty key (Trie stores this key) model={mdl}"
+  let v := v.diffIf (outcome != "crash" && mdl != outcome) s!"{comp} empty key: model={mdl} impl={outcome}"
+  pure v.render
+
 /-! FasterTrie -/
 structure FSt where
   t : FT
@@ -208,6 +222,21 @@ def ftrieOps : Nat → FSt → P FSt
       let v := v.failIf (!(sameIds r spec)) s!"FasterTrie::filter wrong_ids op={s.nops} f={f} impl={r} spec={spec}"
       ftrieOps fuel { s with v := v }
     | "cpy" => ftrieOps fuel s
+    | "ine" =>
+      -- insert of an empty key: as the source handles it now (`ftEmptyKeyGuard`)
+      let out ← P.tok; let id ← P.nat
+      let mdl : String := match s.t.insertG AITB.Gen.C20.ftEmptyKeyGuard [] with
+        | none => "ub" | some none => "invalid_argument" | some (some _) => "ok"
+      let v := s.v.diffIf (mdl != out) s!"FasterTrie::insert op={s.nops} empty key model={mdl} impl={out}"
+      if out == "ok" then
+        -- the implementation stored it: it is compatible with every query from now on
+        ftrieOps fuel { s with es := specInsert s.es id [], issued := id :: s.issued, v := v, exact := false }
+      else ftrieOps fuel { s with v := v }
+    | "ere" =>
+      let _id ← P.nat; let out ← P.tok
+      let mdl : String := match s.t.eraseG AITB.Gen.C20.ftEmptyKeyGuard _id [] with | none => "ub" | some _ => "ok"
+      let v := s.v.diffIf (mdl != out) s!"FasterTrie::erase op={s.nops} empty key model={mdl} impl={out}"
+      ftrieOps fuel { s with v := v }
     | "siz" =>
       let n ← P.nat
       let v := s.v.diffIf (s.t.size != n) s!"FasterTrie::size op={s.nops} model={s.t.size} impl={n}"
@@ -503,6 +532,7 @@ def handle (toks : List String) : String :=
     | "fmt" :: rest => P.run (fmapLine false) rest
     | "fmf" :: rest => P.run (fmapLine true) rest
     | "probe" :: rest => P.run probeLine rest
+    | "fprobe" :: rest => P.run fprobeLine rest
     | "ctor" :: rest => P.run ctorLine rest
     | "imi" :: rest => P.run imiLine rest
     | "fmc" :: rest => P.run fmcLine rest
